@@ -174,3 +174,21 @@ Definition run_lang (fallback prune : bool)
   | Some a => Some (run_lang_t fallback prune files dirs a fx root rounds)
   | None => None
   end.
+
+(* (closed, tame): whether `rounds` rounds close the pruned closure, and whether the tree then satisfies the
+   hypotheses Tame of the theorems of Props.v (tame_decidable) *)
+Definition run_tame_t
+    (files : list (list N * N)) (dirs : list (list N)) (asts : list (N * option (list decl)))
+    (fx : list (N * (bool * bool * bool))) (root : list N) (rounds : N) : bool * bool :=
+  let lk := mk_lookup files dirs in
+  let nodes := lang_nodes lk (mk_ast_t asts) (mk_facts fx) true true (dec_path root) (N.to_nat rounds) in
+  (closed_nodes lk (mk_ast_t asts) (mk_facts fx) true true (dec_path root) nodes,
+   tame_check lk (mk_ast_t asts) (mk_facts fx) (dec_path root) nodes).
+
+Definition run_tame
+    (files : list (list N * N)) (dirs : list (list N)) (asts : list (N * option (list N)))
+    (fx : list (N * (bool * bool * bool))) (root : list N) (rounds : N) : option (bool * bool) :=
+  match dec_asts asts with
+  | Some a => Some (run_tame_t files dirs a fx root rounds)
+  | None => None
+  end.
